@@ -125,3 +125,66 @@ fn get_other_shapes() {
     core::mem::forget(r);
     core::mem::forget(pdu);
 }
+
+//@ C07 thorough timeout=5400 optional | OpGetMany::to_python on a GetResponse with TWO varbinds: any names of 3 octets (equal or different), each value any of {INTEGER, OCTET STRING, NULL, noSuchObject, noSuchInstance, endOfMibView}: the dict holds exactly the data-valued varbinds, keyed by name, a later duplicate replacing the earlier value
+#[kani::proof]
+#[kani::unwind(10)]
+#[kani::stub(alloc::fmt::format, stub_format)]
+#[kani::stub(<std::string::String as std::convert::TryFrom<&crate::ber::SnmpOid<'_>>>::try_from, stub_oid_to_string)]
+fn getmany_two_varbinds() {
+    let n0: [u8; 3] = kani::any();
+    let n1: [u8; 3] = kani::any();
+    let k0: u8 = kani::any();
+    let k1: u8 = kani::any();
+    kani::assume(k0 < V_N && k1 < V_N);
+    let pdu = SnmpPdu::GetResponse(SnmpGetResponse {
+        request_id: 1,
+        error_status: 0,
+        error_index: 0,
+        vars: vec![SnmpVar { oid: oid(&n0), value: mk_value(k0, 10) }, SnmpVar { oid: oid(&n1), value: mk_value(k1, 11) }],
+    });
+    let r = OpGetMany::to_python(&pdu, None, py());
+    let d0 = v_is_data(k0);
+    let d1 = v_is_data(k1);
+    let same = n0 == n1;
+    match &r {
+        Ok(o) => match o.obj() {
+            Obj::Dict(s) => {
+                let want_n = if d0 && d1 { if same { 1 } else { 2 } } else { (d0 as usize) + (d1 as usize) };
+                assert!(s.n == want_n, "getmany_entry_count");
+                if want_n >= 1 {
+                    match s.items[0] {
+                        Item::Pair(k, v) => {
+                            let first_is_0 = d0;
+                            let (kn, kk, kv) = if first_is_0 { (&n0, k0, 10) } else { (&n1, k1, 11) };
+                            assert!(str_is_oid(&pyo3::leaf_at(k), &kn[..]), "getmany_key_is_varbind_name");
+                            if d0 && d1 && same {
+                                assert!(v_leaf_matches(k1, 11, &pyo3::leaf_at(v)), "getmany_later_duplicate_replaces");
+                            } else {
+                                assert!(v_leaf_matches(kk, kv, &pyo3::leaf_at(v)), "getmany_value_is_varbind_value");
+                            }
+                        }
+                        _ => panic!("getmany_item_shape"),
+                    }
+                }
+                if want_n == 2 {
+                    match s.items[1] {
+                        Item::Pair(k, v) => {
+                            assert!(str_is_oid(&pyo3::leaf_at(k), &n1[..]), "getmany_second_key");
+                            assert!(v_leaf_matches(k1, 11, &pyo3::leaf_at(v)), "getmany_second_value");
+                        }
+                        _ => panic!("getmany_item_shape"),
+                    }
+                }
+                kani::cover!(want_n == 2, "two entries");
+                kani::cover!(want_n == 0, "no data values");
+                kani::cover!(d0 && d1 && same, "duplicate name");
+            }
+            _ => panic!("getmany_result_not_dict"),
+        },
+        Err(_) => panic!("getmany_raised_on_a_response"),
+    }
+    assert!(model_ok(), "model_bound");
+    core::mem::forget(r);
+    core::mem::forget(pdu);
+}
